@@ -39,7 +39,7 @@ for pid in ALL:
     na.append({"property_id": pid, "reason": NA.get(pid, NOT_YET)})
 man = {
     "version": 1,
-    "setup_cmd": "./check --help >/dev/null",
+    "setup_cmd": "./check --help >/dev/null && PYTHONHASHSEED=0 /venv/bin/python tools/eval_conformance.py >/dev/null",
     "hooks": {"guard": "TEALER_VERIF", "enable": "none needed: the checks parse /repo's sources and never run them", 
               "baseline_off_cmd": "cd /repo && /venv/bin/python -m pytest -ra -q -p no:cacheprovider --timeout=900 --continue-on-collection-errors",
               "source_commits": [], "add_only": True},
